@@ -41,6 +41,8 @@ func c12Jobs(tier string) []string {
 	for s := 0; s < 4; s++ {
 		jobs = append(jobs, fmt.Sprintf("Wfan|e0p|queryK%d#%d/4", k+1, s))
 	}
+	// mutations whose root fields live on two services and whose payloads are completed by a third one
+	jobs = append(jobs, fmt.Sprintf("W0+mutation-second-service+third-service|e0p|mutK%d", k-1), "Wmin+mutation-second-service+third-service|e0p|mutK4")
 	for _, w := range worlds {
 		for s := 0; s < 4; s++ {
 			jobs = append(jobs, fmt.Sprintf("%s|e0p|queryK%d#%d/4", w, k, s))
@@ -54,7 +56,7 @@ func init() {
 	Props["C12"] = &Prop{
 		ID:    "C12",
 		Level: "exploration",
-		Rule: "case = (world, query with <=K fields) run under 6 datasets (list length 1, default, 5, 20, duplicates in lists, duplicates+5): per service the number of batched HTTP calls must be <= the number of plan levels " +
+		Rule: "case = (world, query with <=K fields; mutations with <=K-1 fields on a world with mutation roots on two services and a third service completing both payloads) run under 6 datasets (list length 1, default, 5, 20, duplicates in lists, duplicates+5): per service the number of batched HTTP calls must be <= the number of plan levels " +
 			"(from the real planner's step tree; operations using the root node() entry point are excluded, see C01 finding) in which the service appears and identical for every list length, also when any one of the downstream calls fails (status 500 / transport error; list length default and 5); within one batched call no two id-only node lookups may carry the same (id, query); " +
 			"with duplicate entities the stitched answer must still equal the reference; non-trivial = plan with >=2 levels",
 		Assumptions: []string{"with the default batch size 3000 one Queryer.Query call is one HTTP call", "plan levels are taken from SequentialPlanner.Plan called directly"},
